@@ -219,6 +219,7 @@ type crashImage struct {
 	served   uint64 // highest round the node had served (stored) before the snapshot
 	dbEpoch  uint32 // highest epoch whose SaveFinished had ENDED on this node before the snapshot
 	window   string // label of the crash window: the last completed step
+	keyWin   string // which part of the three-step epoch completion (dkg.db, group file, share file) is done at this image
 	clockNow time.Time
 }
 
@@ -299,6 +300,7 @@ func TestVerifC13CrashPoints(t *testing.T) {
 			served   atomic.Uint64
 			dbEpoch  atomic.Uint32
 			lastStep = "start"
+			keyWin   string
 			finCount uint32
 		)
 		// persistence operations are serialised between :begin and :end; an operation that contains others (a store method built
@@ -329,7 +331,21 @@ func TestVerifC13CrashPoints(t *testing.T) {
 			if strings.HasPrefix(target, nut.dir) {
 				imgMu.Lock()
 				idx := len(images)
-				img := &crashImage{idx: idx, point: point, target: target, dir: filepath.Join(imgRoot, fmt.Sprintf("img%03d", idx)), served: served.Load(), dbEpoch: dbEpoch.Load(), window: lastStep, clockNow: c.clock.Now()}
+				// the completion of an epoch is SaveFinished, then the group file, then the share file: every image taken between the
+				// first and the last of these steps (whatever operation it is taken at) lies in the same crash window
+				switch k := targetKind(target); {
+				case point == "dkg.SaveFinished:end":
+					keyWin = "dkg.db records completion, key files not yet written"
+				case point == "key.Save:created" && k == "group-file":
+					keyWin = "group file truncated in place (key.Save)"
+				case point == "key.Save:end" && k == "group-file":
+					keyWin = "group file written, share file not yet"
+				case point == "key.Save:created" && k == "share-file":
+					keyWin = "share file truncated in place (key.Save)"
+				case point == "key.Save:end" && k == "share-file":
+					keyWin = ""
+				}
+				img := &crashImage{idx: idx, point: point, target: target, dir: filepath.Join(imgRoot, fmt.Sprintf("img%03d", idx)), served: served.Load(), dbEpoch: dbEpoch.Load(), window: lastStep, keyWin: keyWin, clockNow: c.clock.Now()}
 				_ = copyTree(nut.dir, img.dir)
 				images = append(images, img)
 				if strings.HasSuffix(point, ":end") || strings.HasSuffix(point, ":created") {
@@ -468,18 +484,10 @@ func TestVerifC13CrashPoints(t *testing.T) {
 
 // crashClass names the crash window by the persistence call site it falls into.
 func crashClass(img *crashImage) string {
-	k := targetKind(img.target)
-	switch {
-	case img.point == "dkg.SaveFinished:end" || (img.point == "key.Save:begin" && k == "group-file"):
-		return "dkg.db records completion, key files not yet written"
-	case img.point == "key.Save:created" && k == "group-file":
-		return "group file truncated in place (key.Save)"
-	case (img.point == "key.Save:end" && k == "group-file") || (img.point == "key.Save:begin" && k == "share-file"):
-		return "group file written, share file not yet"
-	case img.point == "key.Save:created" && k == "share-file":
-		return "share file truncated in place (key.Save)"
+	if img.keyWin != "" {
+		return img.keyWin
 	}
-	return "at " + img.point + "@" + k + " after " + img.window
+	return "at " + img.point + "@" + targetKind(img.target) + " after " + img.window
 }
 
 func boolInt(b bool) int {
